@@ -146,6 +146,22 @@ func (s *listSys) Ops() []seqmc.Op {
 					ops = append(ops, op("ReplaceV", v, w))
 				}
 			}
+			// with duplicates present: the node FOUND for a value is its first occurrence, and it is that
+			// node (not another one holding an equal value) that is deleted or gets the new neighbour
+			present := false
+			for _, m := range s.model {
+				present = present || m == v
+			}
+			if !present {
+				continue // the node handed to Delete/InsertAfter/InsertBefore is one the caller found
+			}
+			ops = append(ops, op("DeleteV", v))
+			if len(s.model) < s.cap && v <= 2 {
+				ops = append(ops, op("InsertAfterV", v, 3-v))
+				if s.l.HasInsertBefore() {
+					ops = append(ops, op("InsertBeforeV", v, 3-v))
+				}
+			}
 		}
 		return ops
 	}
@@ -223,6 +239,41 @@ func (s *listSys) Apply(o seqmc.Op, c *seqmc.Ctx) {
 		if at >= 0 {
 			s.model = append([]int{}, s.model...)
 			s.model[at] = o.I[1]
+		}
+	case "DeleteV", "InsertAfterV", "InsertBeforeV":
+		at := -1
+		for i, m := range s.model {
+			if m == o.I[0] {
+				at = i
+				break
+			}
+		}
+		var err error
+		switch o.N {
+		case "DeleteV":
+			err = s.l.Delete(o.I[0])
+		case "InsertAfterV":
+			err = s.l.InsertAfter(o.I[0], o.I[1])
+		default:
+			err = s.l.InsertBefore(o.I[0], o.I[1])
+		}
+		switch {
+		case at < 0:
+			if err == nil {
+				c.Soft(n+o.N[:len(o.N)-1]+"/no-error-for-absent-value", "%s(%d) on %v returned nil", o.N, o.I[0], s.model)
+			}
+		case o.N == "DeleteV" && len(s.model) == 1:
+			if err == nil {
+				c.Soft(n+"Delete/only-node-not-refused", "Delete of the only node returned nil")
+			}
+		case err != nil:
+			c.Soft(n+o.N[:len(o.N)-1]+"/error-for-present-node", "%s(%d) on %v returned %v", o.N, o.I[0], s.model, err)
+		case o.N == "DeleteV":
+			s.model = append(s.model[:at:at], s.model[at+1:]...)
+		case o.N == "InsertAfterV":
+			s.model = insertAt(append([]int{}, s.model...), at+1, o.I[1])
+		default:
+			s.model = insertAt(append([]int{}, s.model...), at, o.I[1])
 		}
 	case "Unshift":
 		v := s.fresh()
